@@ -1,0 +1,12 @@
+//go:build verif
+
+package tsidtracker
+
+// C09 (a selector returns exactly the series whose labels satisfy all
+// matchers): see /verif/bounded/tsid/bulkadd_test.go.  BOUNDED stand-in, never
+// counted as proved: the functions iterate Go maps and the contract language
+// has no "every key was visited" rule for map ranges.  Comment-only file.
+//@ func (*AllMatchedTSIDs).BulkAdd
+//@   props C09
+//@   bounded tsid/bulkadd_test.go Test_Bounded_BulkAdd tsids 1..3, every current selection (8), every matcher result with <=2 tag values over those tsids incl. the empty map (73), first in {true,false}, BulkAdd and BulkAddTagsOnly (2336 inputs): selection == old ∩ matched (later matcher) / old ∪ matched (first)
+//@ end
